@@ -191,6 +191,83 @@ def fragments4(rng):
     return pred, ref
 
 
+def fragments5(rng):
+    """a reference box, a main prediction box and a one-voxel fragment inside the reference such that merging the fragment leaves the
+    ASSD EXACTLY unchanged (such ties are frequent for boxes: about 2 % of random scenes; they are selected here by rejection, using
+    the metric only to pick the input): a merge must STRICTLY improve the score, so the fragment has to stay out"""
+    H, W = 8, 10
+    with np.errstate(all="ignore"):
+        for _ in range(400):
+            rh, rw = rng.randint(2, 5), rng.randint(3, 7)
+            ry, rx = rng.randint(0, H - rh), rng.randint(0, W - rw)
+            ref = np.zeros((H, W), np.uint8); ref[ry:ry + rh, rx:rx + rw] = 1
+            mh, mw = rng.randint(1, rh), rng.randint(1, rw)
+            my, mx = rng.randint(max(0, ry - 1), ry + rh - mh), rng.randint(max(0, rx - 1), rx + rw - mw)
+            pred = np.zeros((H, W), np.uint8); pred[my:my + mh, mx:mx + mw] = 1
+            if not ((pred != 0) & (ref != 0)).any():
+                continue
+            ey, ex = rng.randint(ry, ry + rh - 1), rng.randint(rx, rx + rw - 1)
+            if pred[ey, ex]:
+                continue
+            pred[ey, ex] = 2
+            a = impl.metric("ASSD")(ref.copy(), pred.copy(), 1, [1])
+            b = impl.metric("ASSD")(ref.copy(), pred.copy(), 1, [1, 2])
+            if a == b:
+                return pred, ref
+    return fragments(rng)
+
+
+def reuse_layer(ctx):
+    """two matching runs on the SAME arrays (a lenient threshold first, which merges fragments, then a threshold between the best single
+    score and the merged score): the second run is a run on the instance map the user passed in -- a reference may only be matched if a
+    single prediction OF THAT MAP meets the threshold"""
+    from panoptica.instance_matcher import MaximizeMergeMatching
+    from panoptica.utils.processing_pair import UnmatchedInstancePair
+    rng = ctx.rng
+    for _ in range(ctx.scale(30, 300)):
+        pred, ref = [fragments, fragments2, fragments4][rng.randrange(3)](rng)
+        if not pred.any() or not ref.any():
+            continue
+        mname = rng.choice(["IOU", "DSC"])
+        own = own_candidates(pred, ref, mname)
+        if not own:
+            continue
+        P, R = pred.copy(), ref.copy()
+        with contextlib.redirect_stdout(io.StringIO()), np.errstate(all="ignore"):
+            try:
+                MaximizeMergeMatching(matching_metric=impl.metric(mname), matching_threshold=rng.choice([0.0, 0.1])).match_instances(UnmatchedInstancePair(P, R))
+            except Exception:  # noqa
+                continue
+        best = {}
+        for s_, rr, pp in own:
+            best[rr] = max(best.get(rr, 0.0), s_)
+        thr2 = min(0.99, max(best.values()) + rng.choice([0.02, 0.05, 0.1]))
+        case = {"mode": "reuse", "pred": pred, "ref": ref, "metric": mname, "threshold": thr2}
+        ctx.count({"reuse": True, "pred": pred.tolist(), "ref": ref.tolist(), "metric": mname, "thr": thr2}, True)
+        ctx.bump("second run on the same arrays")
+        problems = reuse_problems(pred, ref, P, R, mname, thr2, own)
+        if problems:
+            ctx.violation("merge matcher, second run on the same arrays: " + "; ".join(problems[:2]), case)
+
+
+def reuse_problems(pred, ref, P, R, mname, thr2, own):
+    from panoptica.instance_matcher import MaximizeMergeMatching
+    from panoptica.utils.processing_pair import UnmatchedInstancePair
+    bad = []
+    if not np.array_equal(P, pred) or not np.array_equal(R, ref):
+        bad.append("the first matching run changed the arrays the caller passed in (fragments it merged now carry one label)")
+    with contextlib.redirect_stdout(io.StringIO()), np.errstate(all="ignore"):
+        out = MaximizeMergeMatching(matching_metric=impl.metric(mname), matching_threshold=thr2).match_instances(UnmatchedInstancePair(P, R))
+    ref_labels = set(int(x) for x in np.unique(ref) if x != 0)
+    matched = {int(x) for x in np.unique(out.prediction_arr[pred != 0]) if int(x) in ref_labels}
+    for rr in sorted(matched):
+        singles = [s_ for s_, r2, pp in own if r2 == rr]
+        if not any(s_ >= thr2 for s_ in singles):
+            bad.append(f"reference {rr} is matched at threshold {thr2} although no single prediction of the instance map passed in meets it "
+                       f"(single scores {sorted(singles)})")
+    return bad
+
+
 def run(ctx):
     common.serial_pool()
     rng = ctx.rng
@@ -200,11 +277,14 @@ def run(ctx):
     p = np.zeros((1, 40), np.uint8); p[0, 0:7] = 1; p[0, 7:40] = 2
     cases.append((p, r, "ASSD", 5.0))
     for it in range(ctx.scale(300, 3000)):
-        pred, ref = [fragments, fragments2, fragments3, fragments4][it % 4](rng)
+        tie = it % 10 == 9
+        pred, ref = fragments5(rng) if tie else [fragments, fragments2, fragments3, fragments4][it % 4](rng)
         if not pred.any() or not ref.any():
             continue
-        mname = rng.choice(["IOU", "DSC", "ASSD"])
+        mname = "ASSD" if tie else rng.choice(["IOU", "DSC", "ASSD"])
         thr = rng.choice([0.0, 0.1, 0.2, 0.3, 0.5, 0.7]) if mname != "ASSD" else rng.choice([0.3, 1.0, 2.5, 10.0])
+        if tie:
+            thr = rng.choice([2.5, 10.0])
         if rng.random() < 0.35:
             # reference label VALUES are arbitrary (sparse, not 1..n): the labels given to unassigned predictions must avoid them
             labs = [int(x) for x in np.unique(ref) if x]
@@ -304,6 +384,7 @@ def run(ctx):
         tbl = [[rr, plist, fq(s)] for rr, plist, s in log]
         mod_in.append([decr, fq(thr), enc_cands(cands), tbl])
         mod_meta.append((case, mp, log))
+    reuse_layer(ctx)
     outs = engine_run(1401, mod_in)
     for (case, mp, log), o in zip(mod_meta, outs):
         mm = {e[0]: e[1] for e in o[0]}
@@ -321,6 +402,17 @@ def replay(path):
     common.serial_pool()
     d = json.loads(open(path).read())
     pred, ref = common.arr_from_json(d["pred"]), common.arr_from_json(d["ref"])
+    if d.get("mode") == "reuse":
+        from panoptica.instance_matcher import MaximizeMergeMatching
+        from panoptica.utils.processing_pair import UnmatchedInstancePair
+        P, R = pred.copy(), ref.copy()
+        with contextlib.redirect_stdout(io.StringIO()), np.errstate(all="ignore"):
+            MaximizeMergeMatching(matching_metric=impl.metric(d["metric"]), matching_threshold=0.0).match_instances(UnmatchedInstancePair(P, R))
+        bad = reuse_problems(pred, ref, P, R, d["metric"], d["threshold"], own_candidates(pred, ref, d["metric"]))
+        print("prediction passed in:\n", pred, "\nthe same array after the first run:\n", P)
+        for b in bad:
+            print("VIOLATION:", b)
+        return 1 if bad else 0
     mp, log = impl_merge(pred, ref, d["metric"], d["threshold"])
     cands = impl_candidates(pred, ref, d["metric"])
     print("candidates:", cands)
